@@ -548,8 +548,22 @@ func opScan(r *rand.Rand, n int, tier, mix string) {
 					// (never a line that a frame could be followed by: func-like, created-by, elided marker, header)
 					v := g.variant()
 					v.Indent, v.BlankIndents = "", false
-					b.WriteString(printDump(g.dump(1+r.Intn(2), 4), v, false))
+					dd := g.dump(1+r.Intn(2), 4)
+					last := &dd[len(dd)-1]
+					frameLike := false
+					if r.Intn(3) == 0 && !last.Unavailable {
+						// after the file line of a "created by" section nothing but a blank line continues the dump:
+						// even lines that look like a further frame end it
+						if last.Creator == nil {
+							last.Creator = &dCreator{Sym: dSym{Pkg: "main", Name: "spawn"}, GID: -1, File: "/home/u/proj/spawn.go", Line: 12}
+						}
+						frameLike = true
+					}
+					b.WriteString(printDump(dd, v, false))
 					regions = append(regions, fmt.Sprintf("%d:%d", st, b.Len()))
+					if frameLike {
+						b.WriteString("main.cleanup(0x1)\n\t/home/u/proj/cleanup.go:9 +0x1d\n")
+					}
 					b.WriteString([]string{"...", "... output truncated ...", "exit status 2", "...retrying in 5s...", "PASS", strings.Repeat("y", 20000)}[r.Intn(6)] + "\n")
 					b.WriteString(genJunk(r, r.Intn(3), true, crlf))
 					continue
@@ -633,6 +647,10 @@ func opScan(r *rand.Rand, n int, tier, mix string) {
 			case 1:
 				n := []int{16382, 16383, 16384, 16385, 16386, 32767, 32768, 32769, 49152}[r.Intn(9)]
 				txt = strings.Repeat("a", n-1) + "\n" + printDump(g.dump(1, 2), dVariant{FileIndent: "\t"}, true) + "z"
+				if r.Intn(3) == 0 {
+					// ... and an unterminated last line of exactly k buffers (or one byte off)
+					txt = txt[:len(txt)-1] + strings.Repeat("z", (1+r.Intn(2))*16384+[]int{0, 0, -1, 1}[r.Intn(4)])
+				}
 			case 2:
 				// a dump line longer than the buffer: many arguments
 				d := g.dump(1, 1)
